@@ -434,3 +434,31 @@ def collision_is_numeric(topology_a, topology_b, name: str, rng, cache=None) -> 
         j = int(np.nanargmax(d))
         return {"event": {str(i): momenta[i][j].tolist() for i in ids}, "value_a": float(va[j]), "value_b": float(vb[j])}
     return None
+
+
+# --------------------------------------------------------------------------- excluded points of the theorems
+
+
+def guard_probes(cache=None) -> dict:
+    """what the REAL code returns at the points the Lean theorems exclude by hypothesis
+    (C07_dalitz_chain / chain_is_helicity_frame: subsystem moving exactly along z; subsystem at
+    rest; C07_theta_polar: zero three-momentum)"""
+    from qrules.topology import create_isobar_topologies
+
+    from tools.corr.C07 import relabelled
+
+    top = relabelled(create_isobar_topologies(3)[0], {0: 2, 1: 0, 2: 1})
+    out = {}
+    events = {
+        "isobar_along_z (pt = 0)": {0: [[1.2, 0.3, 0.1, 0.5]], 1: [[1.1, -0.3, -0.1, 0.4]], 2: [[1.0, 0.0, 0.0, -0.9]]},
+        "isobar_at_rest (|p| = 0)": {0: [[1.2, 0.3, 0.1, 0.5]], 1: [[1.2, -0.3, -0.1, -0.5]], 2: [[0.4, 0.0, 0.0, 0.0]]},
+    }
+    for name, ev in events.items():
+        momenta = {k: np.array(v, dtype=float) for k, v in ev.items()}
+        try:
+            real = evaluate_real(top, momenta, True, cache)
+            out[name] = {k: repr(complex(np.asarray(real[k]).reshape(-1)[0])) if np.iscomplexobj(real[k]) else repr(float(np.asarray(real[k]).reshape(-1)[0]))
+                         for k in ("theta_0^01", "phi_0^01", "theta_01", "phi_01")}
+        except Exception as e:  # noqa: BLE001
+            out[name] = f"{type(e).__name__}: {e}"[:200]
+    return out
